@@ -121,7 +121,7 @@ def failing_theorems(pid, log):
         return []
     lines = open(path).read().splitlines()
     found = []
-    for m in re.finditer(r"Props/%s\.lean:(\d+):\d+: error" % pid, log):
+    for m in re.finditer(r"Props/%s\.lean:(\d+):\d+:" % pid, log):
         ln = int(m.group(1))
         name = None
         for i in range(min(ln, len(lines)) - 1, -1, -1):
